@@ -42,4 +42,44 @@ ASSUME = ['KERNEL ONLY: of the rejection classes in the statement only "duplicat
 import props.c14 as c14        # the value setter every Property assignment ends in (shared with C14)
 GATE_UNITS = dict(UNITS); GATE_JOBS = list(JOBS)
 UNITS = dict(UNITS); UNITS.update(c14.PROP_UNITS); JOBS = JOBS + c14.PROP_JOBS
-SPEC = dict(contracts=['nd.h', 'c08_gate.h', 'c14_prop.h'], stubs=[], include_order=['nd.h', 'c08_gate.h'], units=UNITS, jobs=JOBS, trusted_base=TRUST, assumptions=ASSUME)
+def relink_rules(ctx, toks):
+    """std::shared_ptr<IDataArray> ida = block()->getEntity<IDataArray>(KEY);  ->  DataArrayP ida = getArrayEntity(KEY);   auto target = [std::]dynamic_pointer_cast<DataArrayHDF5>(ida); -> DataArrayP target = ida;
+       target->group() -> target.group()   (the pointer-like handle is a record here)"""
+    from cxx2c import Tok, P, seq_at, match_close, tokenize, fire
+    out = []; i = 0
+    def skipq(k):
+        while k and out[k - 1].t in ('std', '::', 'base'): k -= 1
+        return k
+    while i < len(toks):
+        t = toks[i]
+        if t.t == 'shared_ptr' and toks[i + 1].t == '<':
+            j = i + 2
+            while toks[j].t != '>': j += 1
+            k = skipq(len(out)); ws = out[k].ws if k < len(out) else t.ws; del out[k:]
+            out.append(Tok('id', 'DataArrayP', ws)); i = j + 1; fire(ctx, 'shared-ptr-handle'); continue
+        if seq_at(toks, i, ['block', '(', ')', '->', 'getEntity', '<']):
+            j = i + 6
+            while toks[j].t != '>': j += 1
+            out.append(Tok('id', 'getArrayEntity', t.ws)); i = j + 1; fire(ctx, 'get-entity'); continue
+        if t.t == 'auto' and toks[i + 1].k == 'id' and toks[i + 2].t == '=':
+            j = i + 3
+            while toks[j].t in ('std', '::'): j += 1
+            if toks[j].t == 'dynamic_pointer_cast' and toks[j + 1].t == '<':
+                k = j + 2
+                while toks[k].t != '>': k += 1
+                e = match_close(toks, k + 1)
+                out.extend(tokenize('%sDataArrayP %s =' % (t.ws, toks[i + 1].t))); out.extend(toks[k + 2:e]); ctx.env[toks[i + 1].t] = ('DataArrayP', False); i = e + 1; fire(ctx, 'pointer-cast'); continue
+        if t.k == 'id' and t.t == 'target' and seq_at(toks, i + 1, ['->', 'group', '(', ')']):
+            out.extend(tokenize('%starget.group()' % t.ws)); i += 5; fire(ctx, 'pointer-method'); continue
+        out.append(t); i += 1
+    return out
+MT = 'backend/hdf5/MultiTagHDF5.cpp'; MTH = 'backend/hdf5/MultiTagHDF5.hpp'
+RLCL = ['MultiTagHDF5', 'H5Group', 'DataArrayP', 'nstring']
+RUNITS = {'MultiTagHDF5_positions_set': dict(file=MT, locator=r'void\s+MultiTagHDF5::positions\s*\((?=\s*const\s+std::string\s*&)', cls='MultiTagHDF5', cls_file=MTH, classes=RLCL, pre_rules=[relink_rules],
+                                              inherited_methods=['group', 'forceUpdatedAt', 'getArrayEntity'], member_calls={'positions': 'MultiTagHDF5_positions', 'checkDimensions': 'MultiTagHDF5_checkDimensions'}),
+          'MultiTagHDF5_extents_set': dict(file=MT, locator=r'void\s+MultiTagHDF5::extents\s*\((?=\s*const\s+std::string\s*&)', cls='MultiTagHDF5', cls_file=MTH, classes=RLCL, pre_rules=[relink_rules],
+                                            inherited_methods=['group', 'forceUpdatedAt', 'getArrayEntity'], member_calls={'positions': 'MultiTagHDF5_positions', 'checkDimensions': 'MultiTagHDF5_checkDimensions'})}
+RLX = ('int gh_rl_found, gh_rl_target_grp, gh_rl_target_shape, gh_rl_pos_shape, gh_rl_has_old, gh_rl_removes, gh_rl_links, gh_rl_link_target, gh_rl_link_after_removes, gh_rl_updates, gh_rl_name_ok, gh_rl_remove_name_ok;\n')
+UNITS.update(RUNITS)
+JOBS = JOBS + [dict(name=fn, bodies=[fn], enforce=[fn], replace=[], includes=['c08_relink.h'], extra_c=RLX, defines=['RL_NAME="%s"' % ('positions' if 'positions' in fn else 'extents')], expect_kinds=['postcondition'], timeout=300) for fn in RUNITS]
+SPEC = dict(contracts=['nd.h', 'c08_gate.h', 'c14_prop.h', 'c08_relink.h'], stubs=[], include_order=['nd.h', 'c08_gate.h'], units=UNITS, jobs=JOBS, trusted_base=TRUST, assumptions=ASSUME)
